@@ -16,7 +16,7 @@ import (
 )
 
 func init() {
-	pbt.Describe("cases = (log seed, kind record|tree, tree size t, index/old size n, one mutation of the otherwise valid check tuple). Sizes are biased to 2^k, 2^k+-1 and small values; the store handed to the prover is built by the independent layout enumerator. Mutations cover every component: one bit of any proof hash, drop/duplicate/swap/append/prepend/reverse proof elements, index +-1/random, either size +-1/random/0/negative/>2^62, leaf hash, either root, proofs of a different (t,n), kinds crossed. Oracle: prover output == RFC 6962 PATH/PROOF computed recursively over leaf data; checker verdict == RFC 9162 verification algorithm; out-of-range arguments give an error, not a panic. Non-trivial: t>=3 and (a mutation was applied or the proof has >=2 hashes). Distinct by JSON rendering. The enumeration sub covers every (t,n) with t<=limit. A proof is compared with the reference again after two further prover calls on the same log (held result).",
+	pbt.Describe("cases = (log seed, kind record|tree, tree size t, index/old size n, one mutation of the otherwise valid check tuple). Sizes are biased to 2^k, 2^k+-1 and small values; the store handed to the prover is built by the independent layout enumerator. Mutations cover every component: one bit of any proof hash, drop/duplicate/swap/append/prepend/reverse proof elements, index +-1/random, either size +-1/random/0/negative/>2^62, leaf hash, either root, proofs of a different (t,n), kinds crossed. Oracle: prover output == RFC 6962 PATH/PROOF computed recursively over leaf data; checker verdict == RFC 9162 verification algorithm; out-of-range arguments give an error, not a panic. Non-trivial: t>=3 and (a mutation was applied or the proof has >=2 hashes). Distinct by JSON rendering. The enumeration sub covers every (t,n) with t<=limit. A proof is compared with the reference again after two further prover calls on the same log (held result). Every proof is also computed through a reader that answers requests for consecutive positions with a view into an in-memory store: same proof, and the store must come out as it went in.",
 		"merkleref (RFC 6962 recursion + RFC 9162 verifiers) is correct; SHA-256 collision-free", "for first==second the consistency check is 'empty proof and equal roots' (RFC 6962 section 2.1.2; RFC 9162's algorithm assumes first<second)")
 }
 
@@ -133,9 +133,30 @@ func flip(h tlog.Hash, bit int) tlog.Hash {
 // validTuple computes proof and hashes by the reference and checks the prover against it.
 func proveAndCompare(tree *merkleref.Tree, store []merkleref.Hash, isTree bool, t, n int64) ([]tlog.Hash, *pbt.Failure) {
 	rd := tlogutil.Reader(store)
+	// the same proof read the way an in-memory store is read (views for consecutive positions): same proof,
+	// and the store comes out as it went in
+	mem := make([]tlog.Hash, len(store))
+	for i, h := range store {
+		mem[i] = tlog.Hash(h)
+	}
+	var vp []tlog.Hash
+	var verr error
+	if isTree {
+		vp, verr = tlog.ProveTree(t, n, tlogutil.ViewReader(mem))
+	} else {
+		vp, verr = tlog.ProveRecord(t, n, tlogutil.ViewReader(mem))
+	}
+	for i, h := range store {
+		if mem[i] != tlog.Hash(h) {
+			return nil, pbt.Failf("store-modified", "after proving (tree=%v) t=%d n=%d the stored hash at position %d of the in-memory store the prover read from is no longer the hash that was stored there", isTree, t, n, i)
+		}
+	}
 	if isTree {
 		p, err := tlog.ProveTree(t, n, rd)
 		want := tree.Proof(n, t)
+		if verr != nil || !eqProof(vp, want) {
+			return nil, pbt.Failf("provetree-view", "ProveTree(%d,%d) through views of an in-memory store: %d hashes, err=%v; differs from the RFC 6962 PROOF", t, n, len(vp), verr)
+		}
 		if err != nil || !eqProof(p, want) {
 			return nil, pbt.Failf("provetree", "ProveTree(%d,%d) = %d hashes, err=%v; RFC 6962 PROOF has %d hashes or differs", t, n, len(p), err, len(want))
 		}
@@ -152,6 +173,9 @@ func proveAndCompare(tree *merkleref.Tree, store []merkleref.Hash, isTree bool, 
 	}
 	p, err := tlog.ProveRecord(t, n, rd)
 	want := tree.Path(n, t)
+	if verr != nil || !eqProof(vp, want) {
+		return nil, pbt.Failf("proverecord-view", "ProveRecord(%d,%d) through views of an in-memory store: %d hashes, err=%v; differs from the RFC 6962 PATH", t, n, len(vp), verr)
+	}
 	if err != nil || !eqProof(p, want) {
 		return nil, pbt.Failf("proverecord", "ProveRecord(%d,%d) = %d hashes, err=%v; RFC 6962 PATH has %d hashes or differs", t, n, len(p), err, len(want))
 	}
